@@ -59,6 +59,7 @@ type c08hist struct {
 	flags   map[string]bool
 
 	// C10 re-uses the history machinery with its own executor and extra per-step monitors
+	adopted      map[tensor.Tensor]bool // gradient tensors that the history turned into leaves of their own
 	execFn       func(in ref.Instr, xs []tensor.Tensor) (tensor.Tensor, error, any)
 	skipValues   bool // do not compare values with the model (C10 compares with a twin run instead)
 	afterObserve func(step int, changed map[int]bool) bool
@@ -245,7 +246,7 @@ func (h *c08hist) observe(step int, changed map[int]bool) bool {
 				return false
 			}
 			if g != nil {
-				if gs, ok := tensor.VerifGradState(g); ok && gs.Tracked {
+				if gs, ok := tensor.VerifGradState(g); ok && gs.Tracked && !h.adopted[g] {
 					k.Failf("step %d (%s): the gradient tensor of tensor %d is tracked", step, h.last(), i)
 					return false
 				}
@@ -362,6 +363,122 @@ func (h *c08hist) doBackprop(root int) bool {
 	}
 	h.trans[fmt.Sprintf("%s --backprop(%d reached)--> %s", before, min(len(S), 3), h.nodes[root].state())] = true
 	return h.observe(len(h.actions), changed)
+}
+
+// doReject performs a call that must be REJECTED (invalid arguments) on existing tensors; nothing may change.
+func (h *c08hist) doReject(kind int, a, b int) bool {
+	k := h.k
+	x, y := h.nodes[a].real, h.nodes[b].real
+	sx, sy := h.nodes[a].val.Shape, h.nodes[b].val.Shape
+	// kinds 0, 1, 6 use two EXISTING tensors whose shapes make the call invalid (if this pair happens to be valid, nothing is done)
+	switch kind % 8 {
+	case 0:
+		if _, err := ref.ConcatShape([][]int{sx, sy}, kind/8%max(1, len(sx))); err == nil {
+			return true
+		}
+	case 1:
+		if _, _, _, _, err := ref.MatMulShapes(sx, sy); err == nil {
+			return true
+		}
+	case 6:
+		if ref.SameShape(sx, sy) {
+			return true
+		}
+	case 5:
+		if _, err := ref.BroadcastShape(sx, sy); err == nil {
+			return true
+		}
+	}
+	h.actions = append(h.actions, c08action{Kind: "reject", Target: a, Instr: ref.Instr{Op: "rejected-call", In: []int{a, b}, Dim: kind}})
+	var err error
+	var res tensor.Tensor
+	what := ""
+	p := call(func() {
+		switch kind % 8 {
+		case 0:
+			what = "Concat of two existing tensors whose shapes do not fit"
+			res, err = tensor.Concat([]tensor.Tensor{x, y}, kind/8%max(1, len(sx)))
+		case 1:
+			what = "MatMul of two existing tensors with incompatible inner or batch sizes"
+			res, err = x.MatMul(y)
+		case 2:
+			what = "Reshape to a different element count"
+			res, err = x.Reshape(append(ref.CopyInts(sx), 2, 3, 5))
+		case 3:
+			what = "Slice beyond the extent"
+			res, err = x.Slice(append(make([]tensor.Range, len(sx)), tensor.Range{From: 0, To: 9}))
+		case 4:
+			what = "Patch with an oversized source"
+			bad, _ := tensor.Ones(append(ref.CopyInts(sx), 2), nil)
+			res, err = x.Patch(nil, bad)
+		case 5:
+			what = "Add / Div of two existing tensors whose shapes are not broadcast-compatible, Broadcast to an incompatible shape"
+			res, err = x.Add(y)
+			if err == nil {
+				res, err = y.Div(x)
+			}
+			if err == nil {
+				res, err = x.Broadcast([]int{7, 5})
+			}
+		case 6:
+			what = "ElMax / Eq / Equals of two existing tensors of different shapes"
+			res, err = x.ElMax(y)
+			if err == nil {
+				res, err = y.Eq(x)
+			}
+			if err == nil {
+				_, err = x.Equals(y)
+			}
+		default:
+			what = "At / UnSqueeze / Squeeze / reducers with bad arguments"
+			_, err = x.At(append(make([]int, len(sx)), 1)...)
+			if err == nil {
+				res, err = x.UnSqueeze(len(sx) + 2)
+			}
+			if err == nil {
+				res, err = x.SumAlong(-1)
+			}
+		}
+	})
+	if p != nil {
+		k.Failf("step %d: a call that must be rejected (%s) panicked: %v", len(h.actions), what, p)
+		return false
+	}
+	if err == nil {
+		k.Failf("step %d: a call that must be rejected (%s) on shape %v was accepted (result %v)", len(h.actions), what, sx, res != nil)
+		return false
+	}
+	k.Count("rejected_calls", 1)
+	return h.observe(len(h.actions), nil)
+}
+
+// doAdopt turns the current gradient tensor of node x into a leaf of its own (g.ResetGradContext(flag)) and
+// registers it as a new tensor of the history: from then on it is an ordinary value whose state only the
+// actions of the history may change.
+func (h *c08hist) doAdopt(x int, flag bool) bool {
+	k := h.k
+	g := h.nodes[x].real.Gradient()
+	if g == nil || h.adopted[g] {
+		return true
+	}
+	val, err := rt.Read(g)
+	if err != nil {
+		k.Failf("gradient of tensor %d unreadable: %v", x, err)
+		return false
+	}
+	if h.adopted == nil {
+		h.adopted = map[tensor.Tensor]bool{}
+	}
+	h.adopted[g] = true
+	h.actions = append(h.actions, c08action{Kind: "adopt-gradient", Target: x, Flag: flag})
+	if p := call(func() { g.ResetGradContext(flag) }); p != nil {
+		k.Failf("ResetGradContext on a gradient tensor panicked: %v", p)
+		return false
+	}
+	h.nodes = append(h.nodes, &c08node{in: ref.Instr{Op: "leaf", Shape: val.Shape, Data: val.Data, Tracked: flag}, val: val, tracked: flag, leaf: true, real: g})
+	k.Count("adopted_gradient_tensors", 1)
+	h.flags["reset"] = true
+	return h.observe(len(h.actions), nil)
 }
 
 func (h *c08hist) doReset(t int, flag bool) bool {
@@ -505,6 +622,10 @@ func c08History(k *fw.K) {
 	ok := true
 	for s := 0; s < steps && ok && len(h.nodes) < 70; s++ {
 		switch q := k.Rng.Intn(10); {
+		case len(h.nodes) >= 2 && q == 9 && k.Rng.Intn(2) == 0: // a call that must be rejected, on existing tensors
+			ok = h.doReject(k.Rng.Intn(64), k.Rng.Intn(len(h.nodes)), k.Rng.Intn(len(h.nodes)))
+		case len(h.nodes) >= 2 && q == 9: // a gradient tensor becomes a leaf of its own
+			ok = h.doAdopt(k.Rng.Intn(len(h.nodes)), k.Rng.Intn(2) == 0)
 		case len(h.nodes) >= 2 && q < 2: // BackPropagate(any)
 			t := k.Rng.Intn(len(h.nodes))
 			if h.backpropAllowed(t) {
